@@ -6,6 +6,8 @@ SEED="$1"; NAME=$(basename "$SEED")
 WT=/tmp/wt_verify
 LOG="$SEED/verify.log"; : > "$LOG"
 export CARGO_NET_OFFLINE=true RUST_BACKTRACE=0
+# the integration tests write log files named after binary hash + pid into TMPDIR; keep them apart from other worktrees
+export TMPDIR=/tmp/wt_verify_tmp; rm -rf $TMPDIR; mkdir -p $TMPDIR
 if [ ! -d $WT ]; then git -C /repo worktree add --detach $WT HEAD >>"$LOG" 2>&1; fi
 cd $WT && git checkout -q --detach $(git -C /repo rev-parse HEAD) 2>>"$LOG" && git checkout -- . && git clean -fdq -e target
 DEMO_CMD=$(python3 -c "import json;print(json.load(open('$SEED/meta.json'))['demo_cmd'])")
@@ -28,3 +30,4 @@ SUITE_FAIL=$(sed -n "/== suite with patch/,\$p" "$LOG" | grep -cE "FAILED|[1-9][
 SUITE_OK=$(sed -n '/== suite with patch/,$p' "$LOG" | grep -c "^test result: ok")
 git checkout -- . && git clean -fdq -e target
 echo "{\"seed\":\"$NAME\",\"demo_clean_exit\":$R_CLEAN,\"demo_patched_exit\":$R_PATCHED,\"suite_ok_lines\":$SUITE_OK,\"suite_fail_lines\":$SUITE_FAIL}" | tee "$SEED/verify.json"
+rm -rf /tmp/wt_verify_tmp
